@@ -95,7 +95,7 @@ def namespaces_of(program):
     return out
 
 
-def judge_savepoint(program, lang, stage, key, col, tmpdir, textG, path=None):
+def judge_savepoint(program, lang, stage, key, col, tmpdir, textG, path=None, live_texts=None, live_ns=None):
     """`program` is the twin (deep copy) of the program as it was when it was dumped to `path` in phase 1."""
     from src import utils
     viols = []
@@ -112,14 +112,14 @@ def judge_savepoint(program, lang, stage, key, col, tmpdir, textG, path=None):
         viols.append(('C13/dump-or-load-raises/' + type(e).__name__, {'stage': stage, 'msg': str(e)[:200]}))
         return viols
     # (1) translations
-    tp_, tq = all_texts(program), all_texts(q)
+    tp_, tq = (live_texts if live_texts is not None else all_texts(program)), all_texts(q)
     for l in boot.LANGS:
         if tp_[l] != tq[l]:
             own = 'own-language' if l == lang else 'cross-language'
             viols.append(('C13/text-differs-after-load/%s/%s' % (l, own),
                           {'stage': stage, 'translator': l, 'diff': _first_diff(tp_[l], tq[l])}))
     # (4) reverse lookup
-    np_, nq = namespaces_of(program), namespaces_of(q)
+    np_, nq = (live_ns if live_ns is not None else namespaces_of(program)), namespaces_of(q)
     if np_ != nq:
         bad = [(a, b) for a, b in zip(np_, nq) if a != b][:3]
         viols.append(('C13/namespace-lookup-differs-after-load',
@@ -197,7 +197,8 @@ def judge_case(case, col):
         def save(stage):
             path = os.path.join(tmpdir, 'p_%s.bin' % stage)
             repo_utils.dump_program(path, prog)
-            saves.append((stage, path, copy.deepcopy(prog)))
+            # observables of the LIVE object at save time (a copy would itself go through __getstate__/__setstate__)
+            saves.append((stage, path, copy.deepcopy(prog), all_texts(prog), namespaces_of(prog)))
         save('G')
         utils.random.r = random.Random((case.seed or 1) * 3 + 1)
         te = pg.erase(prog, lang)
@@ -210,8 +211,9 @@ def judge_case(case, col):
         if to.is_transformed:
             save('O')
         # phase 2: load every dump and judge it against the program as it was at that save point
-        for stage, path, twin in saves:
-            viols = judge_savepoint(twin, lang, stage, case.key(), col, tmpdir, textG, path=path)
+        for stage, path, twin, live_texts, live_ns in saves:
+            viols = judge_savepoint(twin, lang, stage, case.key(), col, tmpdir, textG, path=path,
+                                    live_texts=live_texts, live_ns=live_ns)
             k = hashlib.sha1((textG + stage).encode()).hexdigest()[:16]
             nontriv = stage != 'G' or feats.get('bounded_class_params', 0) > 0
             col.case(key=k, nontrivial=nontriv,
